@@ -46,6 +46,12 @@ Next == /\ ~done /\ done' = TRUE /\ v' = v
                                               r |-> E!Enclose(IF m THEN E!Strip(v).v ELSE v,
                                                               IF m THEN E!Strip(v).k ELSE "absent", nm, o)]
                                              : o \in E!Opts, nm \in BOOLEAN, m \in BOOLEAN}),
+                          \* histories on ONE block: remove twice then add with reuse (the second removal records what IT found);
+                          \* remove, add, remove, add
+                          rra |-> IF E!IsInt(v) THEN <<>> ELSE
+                                  LET s1 == E!Strip(v) s2 == E!Strip(s1.v) IN
+                                  SetToSeq({[reuse |-> o.reuse, encInts |-> o.encInts, def |-> o.def, num |-> nm,
+                                             r |-> E!Enclose(s2.v, s2.k, nm, o)] : o \in {x \in E!Opts : x.reuse}, nm \in BOOLEAN}),
                           rb |-> ReparseApplies(v, "{"), rq |-> ReparseApplies(v, "\""),
                           rqok |-> IF ReparseApplies(v, "\"") THEN ReparseOK(v, "\"") ELSE TRUE]))
 InvStripOne == ~E!IsInt(v) => E!StripOne(v)
